@@ -168,10 +168,8 @@ def hash_seed_child(item):
     raise runner.HarnessError("hash-seed child %s produced no result: %s" % (hashseed, r.stderr.decode()[-800:]))
 
 
-def real_run(item):
-    """Observation of a real `phyclone run` with its real spawn pool (thorough tier only)."""
-    seed, hashseed, pin = item
-    spec = spec_for(seed)
+def _real(spec, hashseed, cpus, free_threads=False):
+    """One real `phyclone run` in a fresh interpreter with its real spawn pool, on the CPUs named (None: all)."""
     d = tempfile.mkdtemp(prefix="vreal_")
     try:
         in_file, cluster_file = wp.write_inputs(d, spec["inputs"])
@@ -188,20 +186,70 @@ def real_run(item):
         env = dict(os.environ)
         env["PYTHONHASHSEED"] = str(hashseed)
         env["PYTHONPATH"] = runner.REPO
-        cmd = (["taskset", "-c", "0"] if pin else []) + [sys.executable, "-c", "from phyclone.cli import main; main()"] + [str(a) for a in args]
+        if free_threads:
+            # numerical libraries size their thread pools from the CPUs the process may use, as on a user's machine
+            for k in ("NUMBA_NUM_THREADS", "OMP_NUM_THREADS", "OPENBLAS_NUM_THREADS", "MKL_NUM_THREADS"):
+                env.pop(k, None)
+            env["NUMBA_CACHE_DIR"] = os.path.join(d, "numba")
+        cmd = (["taskset", "-c", cpus] if cpus else []) + [sys.executable, "-c", "from phyclone.cli import main; main()"] + [str(a) for a in args]
         r = subprocess.run(cmd, env=env, stdout=subprocess.PIPE, stderr=subprocess.PIPE, timeout=1500)
         if r.returncode != 0:
-            return {"seed": seed, "error": r.stderr.decode()[-500:], "digest": None}
+            return {"error": r.stderr.decode()[-500:], "digest": None}
         import gzip
+        import hashlib
         import pickle
+
+        import numpy as np
 
         with gzip.GzipFile(out_file, "rb") as fh:
             res = pickle.load(fh)
-        return {"seed": seed, "error": None, "digest": digest(res), "order": list(res.keys())}
+        dd = {str(ch): hashlib.sha256(b"".join(np.ascontiguousarray(x.value).tobytes() for x in v["data"])).hexdigest() for ch, v in res.items()}
+        return {"error": None, "digest": digest(res), "order": list(res.keys()), "data_digest": dd}
     finally:
         import shutil
 
         shutil.rmtree(d, ignore_errors=True)
+
+
+def real_run(item):
+    """Observation of a real `phyclone run` with its real spawn pool (thorough tier only)."""
+    seed, hashseed, pin = item
+    out = _real(spec_for(seed), hashseed, "0" if pin else None)
+    out["seed"] = seed
+    return out
+
+
+def cores_spec(seed):
+    spec = wp.spec_from_seed(seed, boundary=False, finite_clock=False, clustered=True, n_mut=16, chains=1)
+    o = spec["options"]
+    o.update(num_chains=1, num_iters=12, burnin=2, thin=1, grid_size=random.Random(seed).choice([11, 21]), num_particles=3)
+    return spec
+
+
+def cores_run(item):
+    """A real single-chain run on clustered input (clusters of several mutations) in a fresh interpreter that may use 1, 2
+    or all CPUs, thread pools of the numerical libraries left to size themselves: C18's "number of available cores" as the
+    operating system presents it.  One chain, no pool: the executions differ in nothing else, so the comparison is bitwise."""
+    seed, cpus = item
+    out = _real(cores_spec(seed), 0, cpus, free_threads=True)
+    out["seed"] = seed
+    out["cpus"] = cpus
+    return out
+
+
+def judge_cores(sd, outs):
+    P_ = []
+    ref0 = outs[0]
+    for o2 in outs[1:]:
+        what = "cpus %s vs %s" % (ref0["cpus"] or "all", o2["cpus"] or "all")
+        if ref0["data_digest"] != o2["data_digest"]:
+            P_.append(({"sub": "stored_data_differs", "perturbation": "available_cores"},
+                       "the data stored in the trace differ bitwise between real runs of one seed (%s) | cores seed %d" % (what, sd)))
+        elif json.dumps(ref0["digest"], sort_keys=True) != json.dumps(o2["digest"], sort_keys=True):
+            P, b = compare(ref0["digest"], o2["digest"], "available_cores")
+            key = P[0][0] if P else {"sub": "log_p_one_not_bitwise_equal", "perturbation": "available_cores"}
+            P_.append((key, "single-chain real runs of one seed differ (%s): %s | cores seed %d" % (what, P[0][1] if P else "log_p_one values differ in the last bits", sd)))
+    return P_[:1]
 
 
 def dispatch(item):
@@ -247,6 +295,20 @@ def run(ctx):
                 ctx.probe("log_p_one_equal_to_1e-9_but_not_bitwise", b)
             for key, detail in P[:1]:
                 ctx.violation(dict(key, perturbation="hashseed"), detail + " | option seed %d" % s, {"seed": s, "key": dict(key, perturbation="hashseed"), "kind": "hashseed", "hashseed": hr["hashseed"]})
+    citems = [(ctx.sub(("cores", i)), cpus) for i in range(2 if quick else 12) for cpus in ("0", "0,1", None)]
+    cres = runner.pmap(cores_run, citems, timeout=1500)
+    by = {}
+    for it, out in zip(citems, cres):
+        if out["digest"] is None:
+            ctx.probe("real_cores_run_failed")
+            continue
+        ctx.fault("os.available_cpus=%s" % (it[1] or "all"))
+        by.setdefault(it[0], []).append(out)
+    for sd, outs in by.items():
+        n_exec += len(outs) - 1
+        for key, detail in judge_cores(sd, outs):
+            ctx.violation(key, detail, {"seed": sd, "key": key, "kind": "cores"})
+    ctx.cov["real_single_chain_runs_on_1_2_all_cpus"] = sum(len(v) for v in by.values())
     if not quick:
         items = []
         for s in seeds[:6]:
@@ -289,6 +351,11 @@ def replay(ctx, obj):
     if obj["kind"] == "schedule":
         out = task(obj["seed"])
         for key, detail in out["problems"]:
+            if key == obj["key"]:
+                ctx.violation(key, detail, obj)
+    elif obj["kind"] == "cores":
+        outs = [cores_run((obj["seed"], cpus)) for cpus in ("0", "0,1", None)]
+        for key, detail in judge_cores(obj["seed"], [o for o in outs if o["digest"] is not None]):
             if key == obj["key"]:
                 ctx.violation(key, detail, obj)
     elif obj["kind"] == "hashseed":
